@@ -59,7 +59,7 @@ type req41 struct {
 	// client-side knowledge used by the monitor
 	dsess int // session destroyed by the body (-1 none)
 	mark  int // number of requests that had been sent on the slot including this one
-	dropped bool // a false retry of an accepted request: left out of the reference run with its retransmissions
+	falseOf *req41 // the request that consumed this (session, slot, sequence id) before: q is a false retry of it
 	msess   int  // session index told to the model (a session that did not exist when the arguments were built never exists for them)
 }
 
@@ -101,7 +101,7 @@ type outcome struct {
 	replies map[int][]byte // key: label (op index in the original history) of the op that issued the call
 	effects []string
 	dropped map[int]bool // labels of retransmissions of accepted requests (left out of the reference run)
-	known   string       // occurrence of the known in-flight false-retry defect
+	joinClass bool       // the violation is an in-flight false retry answered with the original's reply
 }
 
 type run41 struct {
@@ -122,6 +122,7 @@ type run41 struct {
 	lastDone map[[2]int]uint32 // last sequence id whose reply (SEQUENCE ok) was received
 	busy     map[[2]int]*req41 // accepted and not yet returned
 	touched  map[[2]int]int    // number of requests sent on the slot (for freshness)
+	consumed map[[3]int]*req41 // (session, slot, sequence id) -> the request the server accepted under these ids
 	label    int               // label of the op being executed
 }
 
@@ -335,21 +336,28 @@ func (r *run41) start(q *req41, kind string) {
 	r.calls = append(r.calls, c)
 	key := r.slotKey(q)
 	first := len(q.calls) == 0
-	if o := q.orig(); o != nil {
+	k3 := [3]int{q.sess, q.slot, int(q.seq)}
+	if cons := r.consumed[k3]; cons != nil && cons != q && q.falseOf == nil && first {
+		q.falseOf = cons
+	}
+	if o := q.orig(); o != nil && q.falseOf == nil {
 		c.retransOf = o
 		c.origAccepted = true
 		c.origInflight = !o.returned
-	} else if !first {
+	} else if !first && q.falseOf == nil {
 		// re-sending a request the server never accepted is a new request
 		r.touched[key]++
 		q.mark = r.touched[key]
 	}
-	if b := r.busy[key]; b != nil && b != q && b.seq == q.seq && b.orig() != nil && !b.orig().returned {
-		c.joined = b.orig()
+	if q.falseOf != nil {
+		if o := q.falseOf.orig(); o != nil && !o.returned {
+			c.joined = o
+		}
 	}
 	c.fresh = r.touched[key] == q.mark
 	c.label = r.label
-	if !first && (c.origAccepted || q.dropped) {
+	if c.retransOf != nil || q.falseOf != nil {
+		// the ids were consumed before: whatever this call is answered, it must not have any effect
 		r.out.dropped[c.label] = true
 	}
 	q.calls = append(q.calls, c)
@@ -414,7 +422,8 @@ func (r *run41) collect() {
 	for _, c := range r.calls {
 		if !c.returned && !c.accepted {
 			c.accepted = true
-			if c.retransOf == nil && r.busy[r.slotKey(c.req)] == nil {
+			r.consume(c.req)
+			if c.retransOf == nil && c.req.falseOf == nil && r.busy[r.slotKey(c.req)] == nil {
 				r.busy[r.slotKey(c.req)] = c.req
 			}
 		}
@@ -459,22 +468,21 @@ func (r *run41) onReturn(c *call41) {
 	ok := seqOK(res)
 	if ok {
 		c.accepted = true
+		r.consume(q)
 	}
 	effects := r.w.LogLen() - c.effBefore
 
 	// ---- monitor (implementation only) ----
-	if !shapeConsistent(nfsx.ArgNums(q.args), nfsx.OpNums(res), status) && c.joinedInflight(r) {
-		// the known defect (notes/findings/C19-inflight-join-ignores-content.md):
-		// reported once with a stable signature, the search goes on
-		if r.out.known == "" {
-			r.out.known = fmt.Sprintf("request %d (ops %v) arrived while request %d with the same session/slot/sequence id but other operations was executing and was answered with THAT request's reply (ops %v, status %d)",
+	if !shapeConsistent(nfsx.ArgNums(q.args), nfsx.OpNums(res), status) {
+		if c.joined != nil {
+			r.out.joinClass = true
+			r.failMonitor("request %d (ops %v) arrived while request %d with the same session/slot/sequence id but other operations was executing and was answered with THAT request's reply (ops %v, status %d)",
 				q.id, nfsx.ArgNums(q.args), c.joined.req.id, nfsx.OpNums(res), status)
 		}
-	} else if !shapeConsistent(nfsx.ArgNums(q.args), nfsx.OpNums(res), status) {
 		r.failMonitor("request %d (ops %v) was answered with a reply of another shape (ops %v, status %d): a reply of a different request",
 			q.id, nfsx.ArgNums(q.args), nfsx.OpNums(res), status)
 	}
-	if c.expectMis && c.retransOf == nil {
+	if c.expectMis && c.retransOf == nil && q.falseOf == nil {
 		if status != stSeqMis && status != stBadSess {
 			r.failMonitor("request %d has sequence id %d on a slot whose last id is %d: expected NFS4ERR_SEQ_MISORDERED, got status %d", q.id, q.seq, r.lastDone[key], status)
 		}
@@ -482,13 +490,10 @@ func (r *run41) onReturn(c *call41) {
 			r.failMonitor("misordered request %d had side effects", q.id)
 		}
 	}
-	if c.retransOf != nil && c.origAccepted && c.kind == "dup" {
+	if c.retransOf != nil && q.falseOf == nil {
 		o := c.retransOf
 		if !o.returned && status != stBadSess {
 			r.failMonitor("retransmission (call %d) of request %d returned before the original (call %d) finished", c.id, q.id, o.id)
-		} else if o.joined != nil && o.joinedInflight(r) {
-			// the "original" is itself a false retry that was answered with the reply of
-			// the request it joined (known defect): nothing to compare with
 		} else if c.fresh && status != stBadSess {
 			same := bytes.Equal(c.bytes, o.bytes)
 			unc := !q.cache && bytes.Equal(c.bytes, uncachedBytes(o.res))
@@ -520,7 +525,7 @@ func (r *run41) onReturn(c *call41) {
 			r.out.flags["dup-cached"] = true
 		}
 	}
-	if c.kind == "fdup" && c.retransOf == nil && status != stFalseRe && status != stSeqMis && ok {
+	if q.falseOf != nil && ok {
 		r.out.flags["false-retry-answered-from-cache"] = true
 	}
 	if effects > 0 && len(res.Resarray) > 1 {
@@ -528,7 +533,7 @@ func (r *run41) onReturn(c *call41) {
 	}
 
 	// ---- client bookkeeping ----
-	if c.retransOf == nil || !c.origAccepted {
+	if c.retransOf == nil && q.falseOf == nil {
 		if ok {
 			r.lastDone[key] = q.seq
 		}
@@ -547,10 +552,13 @@ func (r *run41) onReturn(c *call41) {
 	r.compareReturn(c)
 }
 
-// joinedInflight: the call was issued while another request with the same
-// session, slot and sequence id was executing, and got that request's bytes.
-func (c *call41) joinedInflight(r *run41) bool {
-	return c.joined != nil && c.joined.returned && bytes.Equal(c.bytes, c.joined.bytes)
+// consume records q as the request the server accepted under its ids (unless
+// another one was accepted under them before).
+func (r *run41) consume(q *req41) {
+	k3 := [3]int{q.sess, q.slot, int(q.seq)}
+	if q.falseOf == nil && r.consumed[k3] == nil {
+		r.consumed[k3] = q
+	}
 }
 
 func (c *call41) modelExecPending() bool { return c.mOut == "started" && !c.finished }
@@ -818,10 +826,6 @@ func (r *run41) op(op string) bool {
 		q := &req41{id: id, sess: o.sess, msess: o.msess, slot: o.slot, seq: o.seq, cache: o.cache, dsess: -1, body: []string{"variant", f[3]}}
 		q.args = append([]nfsv4.NfsArgop4{o.args[0]}, variant(o.args, arg(3))...)
 		r.reqs[id] = q
-		if o.orig() != nil || o.dropped {
-			r.out.dropped[r.label] = true
-			q.dropped = true
-		}
 		r.touched[r.slotKey(q)]++
 		q.mark = r.touched[r.slotKey(q)]
 		r.start(q, "fdup")
